@@ -120,6 +120,18 @@ public:
         return min_weight_;
     }
 
+    void rollback(std::size_t iteration) override
+    {
+        // the first weights are only serialized while there are no results; if the checkpoint was
+        // read from a stream get them back from the first result
+        if ((iteration == 0) && first_channel_weights_.empty() && !this->results().empty())
+        {
+            first_channel_weights_ = this->results().front().channel_weights();
+        }
+
+        chkpt<multi_channel_result<T>>::rollback(iteration);
+    }
+
     void serialize(std::ostream& out) const override
     {
         chkpt<multi_channel_result<T>>::serialize(out);
